@@ -22,6 +22,9 @@ import (
 
 // shard = one puppet cluster + one manager whose node IDs are index+1.
 type shard struct {
+	dead    bool       // a known wedge was diagnosed: the shard must be replaced
+	pending []Mismatch // mismatches of the case in progress
+	slow    bool       // the case in progress hit a seconds-long wait
 	cl   *puppet.Cluster
 	mgr  *dev.Manager
 	qs   *puppet.QSpec
@@ -270,3 +273,43 @@ func waitFor(d time.Duration, cond func() bool) bool {
 }
 
 func routers(n *dev.Node) int { return gorums.VerifRouterCount(n.RawNode) }
+
+// caseFail buffers a mismatch of the case in progress; timeouts mark the case as slow so that
+// the goroutine dump is examined before the mismatches are reported.
+func (s *shard) caseFail(m Mismatch, timeout bool) {
+	s.pending = append(s.pending, m)
+	if timeout {
+		s.slow = true
+	}
+}
+
+// caseEnd reports the buffered mismatches — unless the case tripped over one of the known
+// connection wedges (findings of C09), which is reported as such and kills the shard.
+func (s *shard) caseEnd(sum *sumT) {
+	defer func() { s.pending, s.slow = nil, false }()
+	if len(s.pending) == 0 {
+		return
+	}
+	if s.slow {
+		if w := diagnose(); w.id != "" {
+			sum.known("C09:" + w.id)
+			sum.count("case-discarded-after-known-wedge:" + w.id)
+			s.dead = true
+			return
+		}
+	}
+	for _, m := range s.pending {
+		sum.mismatch(m)
+	}
+}
+
+// renew replaces a dead shard (the wedged one is closed in the background; its goroutines are lost).
+func (s *shard) renew() (*shard, error) {
+	old := s
+	go func() {
+		defer func() { recover() }()
+		old.cl.Close()
+		old.mgr.Close()
+	}()
+	return newShard(s.n, s.opts[3:]...)
+}
